@@ -300,6 +300,10 @@ pub extern "C" fn tsrun_register_internal_module(
     let guard = ctx.interp.heap.create_guard();
     let module_obj = ctx.interp.create_object(&guard);
 
+    // Value handles to free once every export has been read (the same handle may have
+    // been added under more than one name)
+    let mut consumed: Vec<*mut TsRunValue> = Vec::new();
+
     // Process each export
     for (name, export) in module.exports {
         let key = PropertyKey::String(JsString::from(name.as_str()));
@@ -344,12 +348,16 @@ pub extern "C" fn tsrun_register_internal_module(
 
                 module_obj.borrow_mut().set_property(key, value);
 
-                // Free the value handle (we've cloned the inner value)
-                if !value_ptr.is_null() {
-                    unsafe { drop(Box::from_raw(value_ptr)) };
+                // The handle is ours to free (we've cloned the inner value)
+                if !value_ptr.is_null() && !consumed.contains(&value_ptr) {
+                    consumed.push(value_ptr);
                 }
             }
         }
+    }
+
+    for value_ptr in consumed {
+        unsafe { drop(Box::from_raw(value_ptr)) };
     }
 
     // Register the module namespace with the interpreter
